@@ -571,6 +571,9 @@ func c06RunAttack(a *c06Attack, watchdog time.Duration) (out c06Outcome) {
 	var results []*vegeta.Result
 	timer := time.NewTimer(watchdog)
 	defer timer.Stop()
+	tick := time.NewTicker(250 * time.Millisecond)
+	defer tick.Stop()
+	var spin itemSpin
 loop:
 	for {
 		select {
@@ -579,6 +582,11 @@ loop:
 				break loop
 			}
 			results = append(results, r)
+		case <-tick.C:
+			tr.mu.Lock()
+			p := int64(calls + len(results))
+			tr.mu.Unlock()
+			spin.tick(p)
 		case <-timer.C:
 			atk.Stop()
 			out.inconcl = append(out.inconcl, fmt.Sprintf("watchdog: attack with %d exchanges (opts %+v) did not end within %s (%d results so far)", n, a.Opts, watchdog, len(results)))
@@ -1317,8 +1325,9 @@ func c06Parallel(n, workers int, f func(i int)) {
 		go func() {
 			defer wg.Done()
 			for i := range next {
+				tok := guardBegin()
 				f(i)
-				guardProgress.Add(1)
+				guardEnd(tok)
 			}
 		}()
 	}
